@@ -85,7 +85,10 @@ def gen_session(rng, kind):
         if kind in ("c10", "c05") and r < 0.45:
             evs.append(rng.choice(["toggle", "toggle", "toggle", "selall", "togall", "desel", "up:1", "up:2", "down:1", "up:5"]))
         elif r < 0.55:
-            evs.append("add:%d" % ord(rng.choice(ALPHA if not interactive or rng.random() < 0.5 else "012")))
+            if kind in ("c05", "c01") and rng.random() < 0.15:
+                evs.append("add:32")          # a blank: the query must be reported exactly as edited, blanks included
+            else:
+                evs.append("add:%d" % ord(rng.choice(ALPHA if not interactive or rng.random() < 0.5 else "012")))
         elif r < 0.68:
             evs.append("bs")
         elif r < 0.74:
@@ -99,6 +102,8 @@ def gen_session(rng, kind):
         else:
             evs.append(rng.choice(["up:1", "down:1", "toggle", "selall"]))
     if kind == "c05":
+        if rng.random() < 0.25:
+            evs.append(rng.choice(["add:32", "add:32 add:32", "add:97 add:32", "bs"]))
         evs.append(rng.choice(["idle", "wait:500", ""]))
         evs.append(rng.choice(["accept", "accept", "abort", "accept:%s:%s" % (enc("ctrl-x"), enc("ctrl-x")), "accept::%s" % enc("enter"),
                                "accept:%s:%s" % (enc("alt-a"), enc("alt-a"))]))
